@@ -16,9 +16,13 @@ def image_iterator(m, meta, n_hist=600):
     fr[0].save(buf, "GIF", save_all=True, append_images=fr[1:], duration=100, loop=0)
     data = buf.getvalue()
 
-    def fresh(frame, width):
+    def apply(im, size):
+        # (width, None): proportional; (width, height): both given - two such sizes may share the width (or the height)
+        im.set_size(width=size[0]) if size[1] is None else im.set_size(width=size[0], height=size[1])
+
+    def fresh(frame, size):
         im = BlockImage(Image.open(io.BytesIO(data)))
-        im.set_size(width=width)
+        apply(im, size)
         im.seek(frame)
         return format(im, "1.1")
     memo = {}
@@ -26,15 +30,15 @@ def image_iterator(m, meta, n_hist=600):
         repeat = rng.choice([1, 2, 3, -1])
         cached = rng.choice([True, False, 3, 5, 100])
         image = BlockImage(Image.open(io.BytesIO(data)))
-        width = 8
-        image.set_size(width=width)
+        width = (8, None)
+        apply(image, width)
         it = ImageIterator(image, repeat, "1.1", cached=cached)
         expect_n, passes, trace = 0, repeat, []
         for step in range(rng.randint(3, 22)):
             op = rng.choice(["next", "next", "next", "seek", "size"])
             if op == "size":
-                width = rng.choice([6, 8, 12])
-                image.set_size(width=width)
+                width = rng.choice([(6, None), (8, None), (12, None), (10, 4), (10, 7), (5, 4)])
+                apply(image, width)
                 trace.append(("size", width))
                 continue
             if op == "seek" and trace and any(t[0] == "next" for t in trace):
